@@ -419,8 +419,10 @@ def order_space(tier):
         for a in vals:
             for b in vals:
                 pairs.append((base, a, b))
-        vw = Listed(vals)
-        for v in vals:
+        # quick tier: the facet-observed order uses every other value of the set (compare() above still sees all pairs)
+        fvals = vals if tier != "quick" else vals[::2]
+        vw = Listed(fvals)
+        for v in fvals:
             for k in ("minInclusive", "minExclusive", "maxInclusive", "maxExclusive"):
                 tdefs.append(R(B(name), (k, v)))
                 enums.append((len(tdefs) - 1, vw))
@@ -1385,9 +1387,9 @@ SPEC = dict(
     ],
     coverage=_cov,
     runs=dict(
-        quick=[dict(name="lex", python="c09.run_space", space="lex", needs_lib=True, parse_every=5),
-               dict(name="facets", python="c09.run_space", space="facets", needs_lib=True, parse_every=3),
-               dict(name="order", python="c09.run_space", space="order", needs_lib=True, parse_every=1)],
+        quick=[dict(name="lex", python="c09.run_space", space="lex", needs_lib=True, parse_every=10),
+               dict(name="facets", python="c09.run_space", space="facets", needs_lib=True, parse_every=5),
+               dict(name="order", python="c09.run_space", space="order", needs_lib=True, parse_every=3)],
         thorough=[dict(name="lex", python="c09.run_space", space="lex", needs_lib=True, parse_every=20),
                   dict(name="facets", python="c09.run_space", space="facets", needs_lib=True, parse_every=5),
                   dict(name="order", python="c09.run_space", space="order", needs_lib=True, parse_every=1)],
